@@ -818,6 +818,12 @@ func (c *Client) Do(ctx context.Context, q Query) (err error) {
 		// be reported first. Propagating context error to allow matching it.
 		err = multierr.Append(ctxErr, err)
 	}
+	if err != nil && !c.IsClosed() && parentCtx.Err() != nil && !gotException.Load() {
+		// Context can be done right after the cancellation handler has
+		// finished, e.g. deadline is noticed only by the sender. Query is
+		// reported as canceled, so connection should be closed as well.
+		_ = c.cancelQuery()
+	}
 	if err != nil && !c.IsClosed() {
 		// Query failed, but connection is kept, e.g. on server exception.
 		if sendFailed.Load() {
